@@ -1,0 +1,7 @@
+//go:build !verif
+
+package pogreb
+
+func verifYield(point string) {}
+
+func verifSeed(db *DB) {}
